@@ -159,6 +159,10 @@ fn batch(tier: &str) -> i32 {
         exhaustive = sweep.violations.is_empty() && sweep.runs == total;
         agg.merge(sweep, 4);
     }
+    agg.recheck_determinism(|idx| {
+        let mut rng = Rng::derive(seed, ENGINE_TAG, idx);
+        execute(&gen::generate(&mut rng, tier)).fp
+    });
     agg.probes.declare(exec::PROBES);
     agg.faults.declare(&["observation_inside_jump_window", "boundary_in_skipped_wall_clock", "boundary_in_repeated_wall_clock"]);
     let wall = t0.elapsed().as_secs_f64();
